@@ -81,6 +81,53 @@ def operand_value(ctx, dec):
     return (a + d) & U64
 
 
+def s64(x):
+    x &= U64
+    return x - (1 << 64) if x >> 63 else x
+
+
+SEG_PREFIXES = [0x26, 0x2e, 0x36, 0x3e, 0x64, 0x65]
+# string instructions: opcode -> hardware numbers of the dereferenced registers in yaxpeax's operand order (7 = rdi, 6 = rsi)
+STR_OPS = {0xa4: [7, 6], 0xa5: [7, 6], 0xaa: [7], 0xab: [7], 0xac: [6], 0xad: [6], 0xa6: [7, 6], 0xa7: [7, 6], 0xae: [7], 0xaf: [7]}
+# legacy SSE: (mandatory prefix or None, opcode after 0F); the ModRM memory operand is the only memory operand
+SSE_OPS = [(None, 0x28), (None, 0x29), (None, 0x10), (None, 0x11), (None, 0x2e), (None, 0x58), (None, 0x59), (None, 0x54), (None, 0x57),
+           (0x66, 0x6f), (0x66, 0x7f), (0x66, 0xef), (0xf3, 0x6f), (0xf3, 0x7f), (0xf3, 0x7e), (0x66, 0x28), (0xf2, 0x10), (0xf3, 0x10)]
+# VEX (map 0F): (pp, opcode, takes vvvv)
+AVX_OPS = [(0, 0x28, 0), (0, 0x29, 0), (0, 0x10, 0), (0, 0x11, 0), (0, 0x58, 1), (0, 0x59, 1), (0, 0x54, 1), (0, 0x57, 1), (1, 0xef, 1),
+           (1, 0x6f, 0), (2, 0x6f, 0), (1, 0x7f, 0), (2, 0x7f, 0), (1, 0xfe, 1), (1, 0xd4, 1)]
+# other one-memory-operand instructions: (legacy prefix bytes, opcode bytes, /digit or None, immediate size, REX.W choice: 0 / 1 / None = either)
+MISC_OPS = [(b"", b"\x0f\xb6", None, 0, None), (b"", b"\x0f\xb7", None, 0, None), (b"", b"\x0f\xbe", None, 0, None), (b"", b"\x0f\xbf", None, 0, None),
+            (b"", b"\x0f\xaf", None, 0, None), (b"", b"\x0f\x44", None, 0, None), (b"", b"\x0f\x4c", None, 0, None), (b"", b"\x0f\x94", 0, 0, 0),
+            (b"", b"\x0f\xa3", None, 0, None), (b"", b"\x0f\xab", None, 0, None), (b"", b"\x0f\xb1", None, 0, None), (b"", b"\x0f\xc1", None, 0, None),
+            (b"", b"\x0f\x18", 1, 0, 0), (b"", b"\x0f\x1f", 0, 0, 0), (b"", b"\x87", None, 0, None), (b"", b"\x86", None, 0, 0),
+            (b"", b"\x8a", None, 0, 0), (b"", b"\x88", None, 0, 0), (b"\x66", b"\x8b", None, 0, 0), (b"\x66", b"\x89", None, 0, 0),
+            (b"", b"\xc7", 0, 4, None), (b"", b"\xc6", 0, 1, 0), (b"", b"\x83", 0, 1, None), (b"", b"\x83", 5, 1, None), (b"", b"\x83", 7, 1, None),
+            (b"", b"\x83", 4, 1, None), (b"", b"\x81", 0, 4, None), (b"", b"\x81", 7, 4, None), (b"", b"\x80", 7, 1, 0), (b"", b"\x80", 1, 1, 0),
+            (b"", b"\xf7", 0, 4, None), (b"", b"\xf7", 2, 0, None), (b"", b"\xf7", 3, 0, None), (b"", b"\xf7", 4, 0, None), (b"", b"\xf7", 6, 0, None),
+            (b"", b"\xf7", 7, 0, None), (b"", b"\xf6", 6, 0, 0), (b"", b"\xc1", 4, 1, None), (b"", b"\xc1", 5, 1, None), (b"", b"\xd1", 7, 0, None),
+            (b"", b"\xd3", 4, 0, None), (b"", b"\x63", None, 0, 1), (b"", b"\x69", None, 4, None), (b"", b"\x6b", None, 1, None),
+            (b"", b"\xd9", 0, 0, 0), (b"", b"\xdd", 0, 0, 0), (b"", b"\x0f\xae", 0, 0, 0), (b"", b"\x0f\xc7", 1, 0, 1), (b"", b"\x0f\xc3", None, 0, None)]
+# lock-able read-modify-write forms: (opcode bytes, /digit or None, immediate size)
+LOCK_OPS = [(b"\x01", None, 0), (b"\x29", None, 0), (b"\x31", None, 0), (b"\x21", None, 0), (b"\x09", None, 0), (b"\xff", 0, 0), (b"\xff", 1, 0),
+            (b"\x0f\xb1", None, 0), (b"\x0f\xc1", None, 0), (b"\x87", None, 0), (b"\x83", 0, 1), (b"\xf7", 3, 0), (b"\xf7", 2, 0), (b"\x0f\xab", None, 0)]
+
+
+def enc_general(rng, legacy, opbytes, digit, w, reg, form, base, index, scale_log, disp, imm=0, force_disp32=False, vex=None):
+    """legacy prefixes + REX (or VEX) + opcode bytes + ModRM/SIB/disp + immediate; -> (bytes, decoded operand)"""
+    e, dec = enc_instr(0, digit, w, reg, form, base, index, scale_log, disp, force_disp32)
+    rex, tail = e[0], e[2:]
+    immb = bytes(rng.below(256) for _ in range(imm))
+    if vex is None:
+        return legacy + bytes([rex]) + opbytes + tail + immb, dec
+    pp, vvvv, l = vex
+    r, x, b = (rex >> 2) & 1, (rex >> 1) & 1, rex & 1
+    if x == 0 and b == 0 and rng.chance(1, 2):
+        head = bytes([0xc5, ((r ^ 1) << 7) | ((vvvv ^ 15) << 3) | (l << 2) | pp])
+    else:
+        head = bytes([0xc4, ((r ^ 1) << 7) | ((x ^ 1) << 6) | ((b ^ 1) << 5) | 1, (0 << 7) | ((vvvv ^ 15) << 3) | (l << 2) | pp])
+    return legacy + head + opbytes + tail + immb, dec
+
+
 def region_range(kind, a, b):
     if kind == 0:
         if b == 0 or a + b > U64:
@@ -236,8 +283,9 @@ class C19(PropBase):
         else:
             code, nparams, info0 = rng.choice([11, 11, 7, 4]), 0, 0
             flags = rng.choice([0, 1, 2, 0x80, 0x80, 5, 0xfffffffa])
-        cls = rng.choice(["mem"] * 12 + ["mem32", "callmem", "jmpmem", "pushmem", "popmem", "callreg", "jmpreg", "pushreg", "popreg",
-                                         "ret", "jcc", "callimm", "jmpimm", "nop"])
+        cls = rng.choice(["mem"] * 8 + ["mem32", "callmem", "jmpmem", "pushmem", "popmem", "callreg", "jmpreg", "pushreg", "popreg",
+                                        "ret", "jcc", "callimm", "jmpimm", "nop",
+                                        "str", "str", "seg", "seg", "lock", "sse", "sse", "avx", "avx", "misc", "misc", "misc", "moffs", "pushimm", "noaccess"])
         if scen == 1:
             form = rng.choice(["base", "base_index"])
         elif scen == 2:
@@ -253,6 +301,7 @@ class C19(PropBase):
         if form == "base":
             index = None
         lea, imp, ipk, ipv, ms, dec, reg = 0, 0, 0, 0, 1, None, rng.below(16)
+        ops_all = None
         pad = bytes(rng.below(256) for _ in range(16))
         if cls in ("callmem", "jmpmem") and rng.chance(1, 2):
             form, disp = "rip", rng.range(0, 12)          # the target is read from the planted bytes
@@ -277,6 +326,46 @@ class C19(PropBase):
         elif cls == "popmem":
             enc, dec = enc_instr(0x8f, 0, rng.below(2), 0, form, base, index, scale_log, disp, rng.chance(1, 5))
             imp = 2
+        elif cls == "str":
+            # string instructions (movs/stos/lods/cmps/scas) with optional rep/repne, operand-size prefix, REX.W:
+            # the implicit [rdi] / [rsi] operands are what yaxpeax hands to the analysis
+            form = "strop"
+            opc = rng.choice(sorted(STR_OPS))
+            enc = rng.choice([b"", b"", b"\xf3", b"\xf2"]) + rng.choice([b"", b"", b"\x66"]) + rng.choice([b"", b"\x48"]) + bytes([opc])
+            ops_all = [(HW2ID[h], -1, -1, 0) for h in STR_OPS[opc]]
+            dec = ops_all[0]
+        elif cls == "seg":
+            # a segment-override prefix does not change the operand the analysis sees (the segment base is ignored)
+            opc, digit, lea = rng.choice(Q_OPCODES)
+            w = 1 if opc == 0xff or rng.chance(3, 4) else 0
+            enc, dec = enc_general(rng, bytes([rng.choice(SEG_PREFIXES)]), bytes([opc]), digit, w, reg, form, base, index, scale_log, disp,
+                                   0, rng.chance(1, 5))
+        elif cls == "lock":
+            ob, digit, imm = rng.choice(LOCK_OPS)
+            enc, dec = enc_general(rng, b"\xf0", ob, digit, rng.below(2), reg, form, base, index, scale_log, disp, imm, rng.chance(1, 5))
+        elif cls == "sse":
+            pfx, o2 = rng.choice(SSE_OPS)
+            legacy = (bytes([rng.choice(SEG_PREFIXES)]) if rng.chance(1, 8) else b"") + (bytes([pfx]) if pfx is not None else b"")
+            enc, dec = enc_general(rng, legacy, bytes([0x0f, o2]), None, 0, reg, form, base, index, scale_log, disp, 0, rng.chance(1, 5))
+        elif cls == "avx":
+            pp, o2, usev = rng.choice(AVX_OPS)
+            enc, dec = enc_general(rng, b"", bytes([o2]), None, 0, reg, form, base, index, scale_log, disp, 0, rng.chance(1, 5),
+                                   vex=(pp, rng.below(16) if usev else 0, rng.below(2)))
+        elif cls == "misc":
+            legacy, ob, digit, imm, wsel = rng.choice(MISC_OPS)
+            enc, dec = enc_general(rng, legacy, ob, digit, rng.below(2) if wsel is None else wsel, reg, form, base, index, scale_log, disp,
+                                   imm, rng.chance(1, 5))
+        elif cls == "moffs":
+            # mov al/eax/rax <-> [64-bit absolute offset]
+            form = "moffs"
+            off = rng.choice([rng.below(1 << 64), rng.below(1 << 47), rng.below(1 << 16), 0, (1 << 47) | rng.below(1 << 20)])
+            enc = rng.choice([b"", b"\x48"]) + bytes([rng.choice([0xa0, 0xa1, 0xa2, 0xa3])]) + off.to_bytes(8, "little")
+            dec = (-1, -1, -1, s64(off))
+        elif cls == "pushimm":
+            # push imm8 / imm32: yaxpeax reports no memory size for it, so the analysis takes the "doesn't access memory" shortcut
+            # (no implicit stack write is recorded, unlike push reg / push [mem])
+            form = None
+            enc, ms = rng.choice([bytes([0x6a, rng.below(256)]), bytes([0x68]) + bytes(rng.below(256) for _ in range(4))]), 0
         else:
             form = None
             rexb = bytes([0x41]) if reg >= 8 else b""
@@ -289,7 +378,15 @@ class C19(PropBase):
             elif cls == "popreg":
                 enc, imp = rexb + bytes([0x58 | (reg & 7)]), 2
             elif cls == "ret":
-                enc, imp, ipk = bytes([0xc3]), 2, 4
+                # ret / ret imm16 / retf / retf imm16 read the return address at rsp; iretd / iretq: no access recorded, same ip rule
+                enc, imp = rng.choice([(bytes([0xc3]), 2), (bytes([0xc3]), 2), (bytes([0xc2, rng.below(256), rng.below(256)]), 2), (bytes([0xcb]), 2),
+                                       (bytes([0xca, rng.below(256), rng.below(256)]), 2), (bytes([0x48, 0xcf]), 0), (bytes([0xcf]), 0)])
+                ipk = 4
+            elif cls == "noaccess":
+                # instructions whose (implicit) memory accesses the analysis does not record: leave, pushfq, popfq, xlat, enter,
+                # int3, hlt, syscall, ud2, cpuid, mov reg,imm64
+                enc, ms = rng.choice([b"\xc9", b"\x9c", b"\x9d", b"\xd7", b"\xc8\x10\x00\x00", b"\xcc", b"\xf4", b"\x0f\x05", b"\x0f\x0b",
+                                      b"\x0f\xa2", b"\x48\xb8" + bytes(rng.below(256) for _ in range(8))]), 0
             elif cls == "jcc":
                 enc, ipk, ms = bytes([0x70 | rng.below(16), rng.below(256)]), 1, 0
             elif cls == "callimm":
@@ -300,7 +397,7 @@ class C19(PropBase):
                 enc, ms = bytes([0x90]), 0
         regs = []
         tag = "random"
-        bid = (HW2ID[base] if form in ("base", "base_index") else (16 if form == "rip" else None)) if dec else None
+        bid = (HW2ID[base] if form in ("base", "base_index") else (16 if form == "rip" else (dec[0] if form == "strop" else None))) if dec else None
         iid = (HW2ID[index] if form in ("base_index", "index_disp") else None) if dec else None
         if scen == 0:
             # platform sweep: every processor_architecture value, power-of-two / region-adjacent crash addresses
@@ -434,7 +531,7 @@ class C19(PropBase):
                 tag += "_nobytes"
             else:
                 instr = planted.hex()
-                ops = [dec] if dec else ([dec32] if cls == "mem32" else [])
+                ops = ops_all if ops_all else ([dec] if dec else ([dec32] if cls == "mem32" else []))
                 decs = "D %d %d %d %d %d %d%s" % (lea, ms, imp, ipk, ipv, len(ops), "".join(" %d %d %d %d" % o for o in ops))
                 if overlap:
                     decs = "U"
